@@ -531,6 +531,37 @@ def _n6(run: Run, w: World) -> None:
                             f"argument '{a.arg}') because they forward source.assumptions0")
 
 
+MEMOISERS = {"cache", "lru_cache", "cacheit", "cached", "memoize", "memoized"}
+SYMBOL_MAKERS = {"Symbol", "Function", "IndexedSymbol", "VectorSymbol", "VectorFunction", "SymSymbol", "SymFunction", "IndexedBase", "CoordSys3D", "next_name",
+                 "clone_as_symbol", "clone_as_function", "clone_as_indexed", "clone_as_vector_symbol", "clone_as_vector_function", "symbols", "Dummy"}
+
+
+def _n7(run: Run) -> None:
+    """N7: a function a constructor calls to make the new object's own symbols is not memoised - a memoised maker hands the SAME symbols to every object,
+    so the base vectors / scalars of two coordinate systems (or whatever the objects own) are one SymPy object and merge in sums, substitutions and solutions."""
+    run.rule("N7", "no memoising decorator on a function that creates library symbols and is called from a constructor (each object gets its own symbols)")
+    n = 0
+    for m in run.src.mods.values():
+        if not m.name.startswith("symplyphysics.core"):
+            continue
+        called_from_ctor = set()
+        for c in [x for x in ast.walk(m.tree) if isinstance(x, ast.FunctionDef) and x.name in ("__init__", "__new__", "__init_subclass__")]:
+            for call in [x for x in ast.walk(c) if isinstance(x, ast.Call)]:
+                called_from_ctor.add((dotted(call.func) or "").split(".")[-1])
+        for fn in [x for x in ast.walk(m.tree) if isinstance(x, (ast.FunctionDef, ast.AsyncFunctionDef))]:
+            makes = sorted({(dotted(c.func) or "").split(".")[-1] for c in ast.walk(fn) if isinstance(c, ast.Call)} & SYMBOL_MAKERS)
+            if not makes or fn.name not in called_from_ctor:
+                continue
+            n += 1
+            run.ob("N7", f"{m.name}:{fn.name}")
+            memo = [d for d in fn.decorator_list if ((dotted(d.func) if isinstance(d, ast.Call) else dotted(d)) or "").split(".")[-1] in MEMOISERS]
+            if memo:
+                run.violate("N7", f"{m.name}:{fn.name}:memoised", m, fn,
+                            f"{fn.name} creates symbols ({', '.join(makes)}) for the object under construction and is memoised (@{norm(memo[0], 30)}): every later object of the class "
+                            f"receives the very same symbols, so the symbols of two distinct objects are one SymPy object (2*e_z(A) + 3*e_z(B) is 5*e_z)")
+    run.floor("N7", n, 4, "symbol-making functions called from constructors")
+
+
 def check(run: Run) -> None:
     w = World(run.src)
     prefixes = _n1(run, w)
@@ -539,3 +570,4 @@ def check(run: Run) -> None:
     _n4(run, w)
     _n5(run, w)
     _n6(run, w)
+    _n7(run)
